@@ -346,11 +346,19 @@ fn stream_tag24(ctx: &mut Ctx) {
         let extras = rng.gen_range(0..3);
         let id = format!("elem{}{}", i % 7, gen_text(&mut rng));
         let gv = gen_value(&mut rng, 2);
-        let v = gen_item_value(&mut rng, digest, &id, gv, extras);
+        let mut v = gen_item_value(&mut rng, digest, &id, gv, extras);
+        // every 20th item: one more unknown member whose NAME is long (65 … 4096 bytes, the sizes in turn)
+        if i % 20 == 7 {
+            let len = [65usize, 66, 100, 255, 256, 257, 1000, 4095, 4096][(i / 20 % 9) as usize];
+            if let Value::Map(es) = &mut v { let at = rng.gen_range(0..=es.len()); es.insert(at, (text(&"n".repeat(len)), int(1))); }
+            ctx.count("item:unknown-member-with-long-name");
+        }
         // 1 in 12: keys may come out with indefinite length (a valid encoding the struct reader refuses)
         let keys_def = rng.gen_range(0..12) != 0;
         ctx.rng = rng;
-        let inner = loose(ctx, &v, if keys_def { 1 } else { 0 }, wild);
+        let mut inner = loose(ctx, &v, if keys_def { 1 } else { 0 }, wild);
+        // every 20th item: the embedded item starts with the self-described-CBOR tag 55799 (RFC 8949 3.4.6)
+        if i % 20 == 13 { inner = [vec![0xd9, 0xd9, 0xf7], inner].concat(); ctx.count("item:self-described-cbor-tag"); }
         let outer = tag24_outer(&inner);
         let desc = json!({"kind": "IssuerSignedItem", "inner_len": inner.len(), "canonical_len": to_bytes(&v).len(), "extras": extras, "keys_definite": keys_def});
         if inner != to_bytes(&v) { ctx.count("enc:non-canonical"); } else { ctx.count("enc:canonical"); }
@@ -371,7 +379,8 @@ fn stream_tag24(ctx: &mut Ctx) {
         let mut rng = ctx.rng.clone();
         let v = gen_value(&mut rng, 3);
         ctx.rng = rng;
-        let inner = loose(ctx, &v, 0, true);
+        let mut inner = loose(ctx, &v, 0, true);
+        if ctx.evaluations % 10 < 2 { inner = [vec![0xd9, 0xd9, 0xf7], inner].concat(); ctx.count("value:self-described-cbor-tag"); }
         let outer = tag24_outer(&inner);
         let desc = json!({"kind": "Value", "inner_len": inner.len()});
         let o = obs_tag24_value(&outer);
